@@ -61,7 +61,10 @@ func (r *Report) OK(rule, desc string) {
 	c[0]++
 	c[1]++
 	r.PerRule[rule] = c
-	if len(r.Samples) < 400 {
+	if os.Getenv("OWCHECK_VERBOSE") != "" {
+		fmt.Println("OK", rule, desc)
+	}
+	if len(r.Samples) < 4000 {
 		r.Samples = append(r.Samples, rule+" "+desc)
 	}
 }
